@@ -9,7 +9,9 @@ import sys
 import tempfile
 import threading
 
-PROG = 'import sys, json\nopen("argv.json", "w").write(json.dumps(sys.argv))\n'
+# the program also uses the importable decorator: whether *that* profiles must not depend on the program's own arguments
+PROG = ('import sys, json\nopen("argv.json", "w").write(json.dumps(sys.argv))\nfrom line_profiler import profile as _lp\n\n\n@_lp\ndef _work(n):\n    return n + 1\n\n\n'
+        '_work(1)\n')
 
 
 def run_one(args):
@@ -29,6 +31,10 @@ def run_one(args):
     except BaseException as e:   # noqa
         st = 'exc:' + type(e).__name__ + ':' + str(e)[:200]
     finally:
+        # did the program's arguments switch the explicit profiler on behind kernprof's back?
+        explicit_after = [line_profiler.profile.enabled, line_profiler.profile._profile is not None]
+        import atexit
+        atexit.unregister(line_profiler.profile.show)
         line_profiler.profile.enabled = None
         line_profiler.profile._profile = None
         sys.argv[:] = argv0
@@ -56,8 +62,8 @@ def run_one(args):
         except Exception:
             kinds.append('pstats')
     out = buf.getvalue()
-    return {'status': st, 'argv': argv, 'files': files, 'kinds': kinds,
-            'viewed': ('Timer unit' in out or 'function calls' in out)}
+    return {'status': st, 'argv': argv, 'files': files, 'kinds': kinds, 'explicit_after': explicit_after,
+            'viewed': ('Timer unit' in out or 'function calls' in out), 'ambiguous': 'ambiguous option' in out}
 
 
 def main():
